@@ -435,3 +435,31 @@ Fixpoint ops_under (s : skel) (h : option mode) : list (option mode * sop) * boo
   | SWith m b => (fst (ops_under b (Some m)), false)
   | _ => ([], false)
   end.
+
+Definition sop_eqb (a b : sop) : bool :=
+  match a, b with
+  | Discover, Discover | GetAll, GetAll | GetMulti, GetMulti | GetFiltered, GetFiltered | GetMeta, GetMeta
+  | SetMeta, SetMeta | Tag, Tag | Etag, Etag | Sync, Sync | HasUid, HasUid | Upload, Upload | Delete, Delete
+  | Move, Move | CreateCollection, CreateCollection | Serialize, Serialize | LastModified, LastModified
+  | Verify, Verify => true
+  | _, _ => false
+  end.
+
+(* the storage operations of an observed stream, each with the lock held when it was called *)
+Fixpoint obs_ops (h : option mode) (t : list event) : list (option mode * sop) :=
+  match t with
+  | [] => []
+  | EAcquire m :: r => obs_ops (Some m) r
+  | ERelease :: r => obs_ops None r
+  | EStorage k :: r => (h, k) :: obs_ops h r
+  | _ :: r => obs_ops h r
+  end.
+
+Definition ops_included (s : skel) (t : list event) : bool :=
+  let syn := fst (ops_under s None) in
+  forallb (fun x => existsb (fun y => omode_eqb (fst x) (fst y) && sop_eqb (snd x) (snd y)) syn) (obs_ops None t).
+
+(* correspondence verdict for one observed request stream against its skeleton:
+   (the stream satisfies the discipline, it is a path of the skeleton, its storage calls occur in the skeleton) *)
+Definition corr (s : skel) (t : list event) : bool * bool * bool :=
+  (disciplineb t, accepts s t, ops_included s t).
